@@ -1,0 +1,1200 @@
+// Copyright 2025 The Go Authors. All rights reserved.
+// Use of this source code is governed by a BSD-style
+// license that can be found in the LICENSE file.
+
+//go:build verif
+
+package http2
+
+import "io"
+
+// Contracts, spec functions and lemma harnesses for the deductive verifier in /verif (govc):
+// frame.go, properties C07 (the frame reader validates arbitrary input and never panics) and
+// C06 (every Write* method output reads back identically).
+
+// ---------------------------------------------------------------------------
+// C07: frame header layout
+
+// be24 / be32: big-endian values of a byte sequence.
+//
+//@ pure
+func be24(b0, b1, b2 byte) uint32 { return uint32(b0)<<16 | uint32(b1)<<8 | uint32(b2) }
+
+//@ pure
+func be32(b0, b1, b2, b3 byte) uint32 {
+	return uint32(b0)<<24 | uint32(b1)<<16 | uint32(b2)<<8 | uint32(b3)
+}
+
+//@ func readFrameHeader(buf, r) (fh, err)
+//@   requires len(buf) >= frameHeaderLen
+//@   ensures  err != nil ==> !fh.valid && fh.Length == 0 && fh.Type == 0 && fh.Flags == 0 && fh.StreamID == 0
+//@   ensures  err == nil ==> fh.valid && fh.Length == be24(buf[0], buf[1], buf[2]) && fh.Type == FrameType(buf[3]) && fh.Flags == Flags(buf[4])
+//@   ensures  err == nil ==> fh.StreamID == be32(buf[5], buf[6], buf[7], buf[8]) & (1<<31 - 1)
+//@   ensures  fh.Length < 1<<24 && fh.StreamID < 1<<31
+//@   modifies elems(buf)
+
+// ---------------------------------------------------------------------------
+// C07: HEADERS/CONTINUATION contiguity (RFC 9113 section 6.10): the state is fr.lastHeaderStream,
+// the stream of an open header block (0 = none).
+
+// frameOrderViolation: a frame (typ, id) arrives while the header block of stream last is open
+// (last != 0) and is not a CONTINUATION of that stream, or a CONTINUATION arrives while no block
+// is open.
+//
+//@ pure
+func frameOrderViolation(last uint32, typ FrameType, id uint32) bool {
+	if last != 0 {
+		return typ != FrameContinuation || id != last
+	}
+	return typ == FrameContinuation
+}
+
+// nextHeaderStream: the state after an accepted frame.
+//
+//@ pure
+func nextHeaderStream(last uint32, typ FrameType, flags Flags, id uint32) uint32 {
+	if typ == FrameHeaders || typ == FrameContinuation {
+		if flags&FlagHeadersEndHeaders != 0 {
+			return 0
+		}
+		return id
+	}
+	return last
+}
+
+//@ func (*Framer).checkFrameOrder(fr, fh) (err)
+//@   requires fr != nil
+//@   ensures  fr.lastFrameType == fh.Type
+//@   ensures  fr.AllowIllegalReads ==> err == nil && fr.lastHeaderStream == old(fr.lastHeaderStream) && fr.errDetail == old(fr.errDetail)
+//@   ensures  !fr.AllowIllegalReads ==> (err != nil <==> frameOrderViolation(old(fr.lastHeaderStream), fh.Type, fh.StreamID))
+//@   ensures  err != nil ==> hastype(err, ConnectionError) && err.(ConnectionError) == ConnectionError(ErrCodeProtocol) && fr.lastHeaderStream == old(fr.lastHeaderStream)
+//@   ensures  !fr.AllowIllegalReads && err == nil ==> fr.lastHeaderStream == nextHeaderStream(old(fr.lastHeaderStream), fh.Type, fh.Flags, fh.StreamID) && fr.errDetail == old(fr.errDetail)
+//@   modifies fr.lastFrameType, fr.lastHeaderStream, fr.errDetail
+
+// ---------------------------------------------------------------------------
+// C07: the frame parsers. Every parser is verified for arbitrary payload bytes, flags, lengths and
+// stream ids (no precondition beyond the memory shape); countError is an unknown function value.
+
+// padOff: number of bytes the Pad Length field takes.
+//
+//@ pure
+func padOff(padded bool) int {
+	if padded {
+		return 1
+	}
+	return 0
+}
+
+// padLen: the value of the Pad Length field of a payload (0 when the frame is not padded).
+//
+//@ pure
+func padLen(padded bool, p []byte) int {
+	if padded && len(p) > 0 {
+		return int(p[0])
+	}
+	return 0
+}
+
+// dataFrameBad: a DATA frame the reader must refuse: stream 0, PADDED without a Pad Length byte,
+// or padding longer than the rest of the payload (RFC 9113 section 6.1).
+//
+//@ pure
+func dataFrameBad(fh FrameHeader, p []byte) bool {
+	padded := fh.Flags&FlagDataPadded != 0
+	return fh.StreamID == 0 || (padded && len(p) == 0) || padLen(padded, p) > len(p)-padOff(padded)
+}
+
+//@ func parseDataFrame(fc, fh, countError, payload) (f, err)
+//@   ensures  err != nil <==> dataFrameBad(fh, payload)
+//@   ensures  err != nil ==> f == nil
+//@   ensures  fh.StreamID == 0 ==> hastype(err, connError) && err.(connError).Code == ErrCodeProtocol
+//@   ensures  err == nil ==> hastype(f, *DataFrame) && f.(*DataFrame) != nil && f.(*DataFrame).FrameHeader == fh
+//@   ensures  err == nil ==> seqeq(f.(*DataFrame).data, payload[padOff(fh.Flags&FlagDataPadded != 0) : len(payload)-padLen(fh.Flags&FlagDataPadded != 0, payload)])
+//@   ensures  err == nil && fc != nil ==> f.(*DataFrame) == &fc.dataFrame
+//@   ensures  err == nil && fc == nil ==> fresh(f.(*DataFrame))
+//@   modifies *fc
+//@   allocates
+
+// Frames (default: empty): a parser writes only the frame object it returns (fresh, except the
+// cached DataFrame of a frameCache).
+
+// Stream-ID rules of RFC 9113 (sections 6.1-6.10) and RFC 9218 (7.1) as enforced by the parsers:
+// DATA, HEADERS, PRIORITY, RST_STREAM, PUSH_PROMISE and CONTINUATION need a non-zero stream,
+// SETTINGS, PING, GOAWAY and PRIORITY_UPDATE need stream 0, WINDOW_UPDATE and unknown types take both.
+//
+//@ pure
+func streamIDRuleViolated(typ FrameType, id uint32) bool {
+	switch typ {
+	case FrameData, FrameHeaders, FramePriority, FrameRSTStream, FramePushPromise, FrameContinuation:
+		return id == 0
+	case FrameSettings, FramePing, FrameGoAway, FramePriorityUpdate:
+		return id != 0
+	}
+	return false
+}
+
+//@ pure
+func isConnErr(err error, code ErrCode) bool {
+	ce, ok := err.(ConnectionError)
+	return ok && ErrCode(ce) == code
+}
+
+//@ pure
+func isConnErrReason(err error, code ErrCode) bool {
+	ce, ok := err.(connError)
+	return ok && ce.Code == code
+}
+
+//@ pure
+func isStreamErr(err error, id uint32, code ErrCode) bool {
+	se, ok := err.(StreamError)
+	return ok && se.StreamID == id && se.Code == code
+}
+
+// PING (6.7): 8 bytes on stream 0.
+//
+//@ func parsePingFrame(fc, fh, countError, payload) (f, err)
+//@   ensures  err != nil <==> (len(payload) != 8 || fh.StreamID != 0)
+//@   ensures  err != nil ==> f == nil
+//@   ensures  len(payload) != 8 ==> isConnErr(err, ErrCodeFrameSize)
+//@   ensures  len(payload) == 8 && fh.StreamID != 0 ==> isConnErr(err, ErrCodeProtocol)
+//@   ensures  err == nil ==> hastype(f, *PingFrame) && f.(*PingFrame) != nil && fresh(f.(*PingFrame)) && f.(*PingFrame).FrameHeader == fh
+//@   ensures  err == nil ==> forall i int :: 0 <= i && i < 8 ==> f.(*PingFrame).Data[i] == payload[i]
+//@   allocates
+
+// GOAWAY (6.8): stream 0, at least 8 bytes; the reserved bit of the last stream id is masked.
+//
+//@ func parseGoAwayFrame(fc, fh, countError, p) (f, err)
+//@   ensures  err != nil <==> (fh.StreamID != 0 || len(p) < 8)
+//@   ensures  err != nil ==> f == nil
+//@   ensures  fh.StreamID != 0 ==> isConnErr(err, ErrCodeProtocol)
+//@   ensures  fh.StreamID == 0 && len(p) < 8 ==> isConnErr(err, ErrCodeFrameSize)
+//@   ensures  err == nil ==> hastype(f, *GoAwayFrame) && f.(*GoAwayFrame) != nil && fresh(f.(*GoAwayFrame)) && f.(*GoAwayFrame).FrameHeader == fh
+//@   ensures  err == nil ==> f.(*GoAwayFrame).LastStreamID == be32(p[0], p[1], p[2], p[3]) & (1<<31 - 1) && f.(*GoAwayFrame).ErrCode == ErrCode(be32(p[4], p[5], p[6], p[7]))
+//@   ensures  err == nil ==> seqeq(f.(*GoAwayFrame).debugData, p[8:]) && samebase(f.(*GoAwayFrame).debugData, p)
+//@   allocates
+
+// Unknown frame types are passed through unchanged (4.1: "must ignore and discard").
+//
+//@ func parseUnknownFrame(fc, fh, countError, p) (f, err)
+//@   ensures  err == nil && hastype(f, *UnknownFrame) && f.(*UnknownFrame) != nil && fresh(f.(*UnknownFrame)) && f.(*UnknownFrame).FrameHeader == fh
+//@   ensures  seqeq(f.(*UnknownFrame).p, p) && samebase(f.(*UnknownFrame).p, p)
+//@   allocates
+
+// WINDOW_UPDATE (6.9): 4 bytes, reserved bit masked, increment 0 is a connection error on stream 0
+// and a stream error elsewhere.
+//
+//@ func parseWindowUpdateFrame(fc, fh, countError, p) (f, err)
+//@   ensures  err != nil <==> (len(p) != 4 || be32(p[0], p[1], p[2], p[3]) & 0x7fffffff == 0)
+//@   ensures  err != nil ==> f == nil
+//@   ensures  len(p) != 4 ==> isConnErr(err, ErrCodeFrameSize)
+//@   ensures  len(p) == 4 && err != nil && fh.StreamID == 0 ==> isConnErr(err, ErrCodeProtocol)
+//@   ensures  len(p) == 4 && err != nil && fh.StreamID != 0 ==> isStreamErr(err, fh.StreamID, ErrCodeProtocol)
+//@   ensures  err == nil ==> hastype(f, *WindowUpdateFrame) && f.(*WindowUpdateFrame) != nil && fresh(f.(*WindowUpdateFrame)) && f.(*WindowUpdateFrame).FrameHeader == fh
+//@   ensures  err == nil ==> f.(*WindowUpdateFrame).Increment == be32(p[0], p[1], p[2], p[3]) & 0x7fffffff && f.(*WindowUpdateFrame).Increment >= 1 && f.(*WindowUpdateFrame).Increment <= 1<<31-1
+//@   allocates
+
+// PRIORITY (6.3): non-zero stream, exactly 5 bytes.
+//
+//@ func parsePriorityFrame(fc, fh, countError, payload) (f, err)
+//@   ensures  err != nil <==> (fh.StreamID == 0 || len(payload) != 5)
+//@   ensures  err != nil ==> f == nil
+//@   ensures  fh.StreamID == 0 ==> isConnErrReason(err, ErrCodeProtocol)
+//@   ensures  fh.StreamID != 0 && len(payload) != 5 ==> isConnErrReason(err, ErrCodeFrameSize)
+//@   ensures  err == nil ==> hastype(f, *PriorityFrame) && f.(*PriorityFrame) != nil && fresh(f.(*PriorityFrame)) && f.(*PriorityFrame).FrameHeader == fh
+//@   ensures  err == nil ==> f.(*PriorityFrame).PriorityParam.StreamDep == be32(payload[0], payload[1], payload[2], payload[3]) & 0x7fffffff && f.(*PriorityFrame).PriorityParam.Weight == payload[4]
+//@   ensures  err == nil ==> (f.(*PriorityFrame).PriorityParam.Exclusive <==> payload[0] & 0x80 != 0)
+//@   ensures  err == nil ==> f.(*PriorityFrame).PriorityParam.urgency == 0 && f.(*PriorityFrame).PriorityParam.incremental == 0
+//@   allocates
+
+// RST_STREAM (6.4): exactly 4 bytes, non-zero stream.
+//
+//@ func parseRSTStreamFrame(fc, fh, countError, p) (f, err)
+//@   ensures  err != nil <==> (len(p) != 4 || fh.StreamID == 0)
+//@   ensures  err != nil ==> f == nil
+//@   ensures  len(p) != 4 ==> isConnErr(err, ErrCodeFrameSize)
+//@   ensures  len(p) == 4 && fh.StreamID == 0 ==> isConnErr(err, ErrCodeProtocol)
+//@   ensures  err == nil ==> hastype(f, *RSTStreamFrame) && f.(*RSTStreamFrame) != nil && fresh(f.(*RSTStreamFrame)) && f.(*RSTStreamFrame).FrameHeader == fh
+//@   ensures  err == nil ==> f.(*RSTStreamFrame).ErrCode == ErrCode(be32(p[0], p[1], p[2], p[3]))
+//@   allocates
+
+// CONTINUATION (6.10): non-zero stream; the whole payload is the header block fragment.
+//
+//@ func parseContinuationFrame(fc, fh, countError, p) (f, err)
+//@   ensures  err != nil <==> fh.StreamID == 0
+//@   ensures  err != nil ==> f == nil && isConnErrReason(err, ErrCodeProtocol)
+//@   ensures  err == nil ==> hastype(f, *ContinuationFrame) && f.(*ContinuationFrame) != nil && fresh(f.(*ContinuationFrame)) && f.(*ContinuationFrame).FrameHeader == fh
+//@   ensures  err == nil ==> seqeq(f.(*ContinuationFrame).headerFragBuf, p) && samebase(f.(*ContinuationFrame).headerFragBuf, p)
+//@   allocates
+
+// HEADERS (6.2): non-zero stream; optional Pad Length byte, optional 5 priority bytes, fragment,
+// padding. hdrOff is the number of bytes in front of the fragment.
+//
+//@ pure
+func hdrOff(flags Flags) int {
+	n := 0
+	if flags&FlagHeadersPadded != 0 {
+		n++
+	}
+	if flags&FlagHeadersPriority != 0 {
+		n += 5
+	}
+	return n
+}
+
+//@ pure
+func headersFrameBad(fh FrameHeader, p []byte) bool {
+	padded := fh.Flags&FlagHeadersPadded != 0
+	return fh.StreamID == 0 || len(p) < hdrOff(fh.Flags) || padLen(padded, p) > len(p)-hdrOff(fh.Flags)
+}
+
+//@ func parseHeadersFrame(fc, fh, countError, p) (f, err)
+//@   ensures  err != nil <==> headersFrameBad(fh, p)
+//@   ensures  err != nil ==> f == nil
+//@   ensures  fh.StreamID == 0 ==> isConnErrReason(err, ErrCodeProtocol)
+//@   ensures  fh.StreamID != 0 && len(p) >= hdrOff(fh.Flags) && err != nil ==> isStreamErr(err, fh.StreamID, ErrCodeProtocol)
+//@   ensures  err == nil ==> hastype(f, *HeadersFrame) && f.(*HeadersFrame) != nil && fresh(f.(*HeadersFrame)) && f.(*HeadersFrame).FrameHeader == fh
+//@   ensures  err == nil ==> seqeq(f.(*HeadersFrame).headerFragBuf, p[hdrOff(fh.Flags) : len(p)-padLen(fh.Flags&FlagHeadersPadded != 0, p)]) && samebase(f.(*HeadersFrame).headerFragBuf, p)
+//@   ensures  err == nil && fh.Flags&FlagHeadersPriority == 0 ==> f.(*HeadersFrame).Priority.StreamDep == 0 && !f.(*HeadersFrame).Priority.Exclusive && f.(*HeadersFrame).Priority.Weight == 0
+//@   ensures  err == nil && fh.Flags&FlagHeadersPriority != 0 ==> f.(*HeadersFrame).Priority.StreamDep == be32(p[hdrOff(fh.Flags)-5], p[hdrOff(fh.Flags)-4], p[hdrOff(fh.Flags)-3], p[hdrOff(fh.Flags)-2]) & 0x7fffffff
+//@   ensures  err == nil && fh.Flags&FlagHeadersPriority != 0 ==> (f.(*HeadersFrame).Priority.Exclusive <==> p[hdrOff(fh.Flags)-5] & 0x80 != 0) && f.(*HeadersFrame).Priority.Weight == p[hdrOff(fh.Flags)-1]
+//@   ensures  err == nil ==> f.(*HeadersFrame).Priority.urgency == 0 && f.(*HeadersFrame).Priority.incremental == 0
+//@   allocates
+
+// PUSH_PROMISE (6.6): non-zero stream; optional Pad Length byte, 4 bytes promised id (reserved bit
+// masked), fragment, padding.
+//
+//@ pure
+func ppOff(flags Flags) int {
+	if flags&FlagPushPromisePadded != 0 {
+		return 5
+	}
+	return 4
+}
+
+//@ pure
+func pushPromiseBad(fh FrameHeader, p []byte) bool {
+	padded := fh.Flags&FlagPushPromisePadded != 0
+	return fh.StreamID == 0 || len(p) < ppOff(fh.Flags) || padLen(padded, p) > len(p)-ppOff(fh.Flags)
+}
+
+//@ func parsePushPromise(fc, fh, countError, p) (f, err)
+//@   ensures  err != nil <==> pushPromiseBad(fh, p)
+//@   ensures  err != nil ==> f == nil
+//@   ensures  fh.StreamID == 0 ==> isConnErr(err, ErrCodeProtocol)
+//@   ensures  fh.StreamID != 0 && len(p) >= ppOff(fh.Flags) && err != nil ==> isConnErr(err, ErrCodeProtocol)
+//@   ensures  err == nil ==> hastype(f, *PushPromiseFrame) && f.(*PushPromiseFrame) != nil && fresh(f.(*PushPromiseFrame)) && f.(*PushPromiseFrame).FrameHeader == fh
+//@   ensures  err == nil ==> f.(*PushPromiseFrame).PromiseID == be32(p[ppOff(fh.Flags)-4], p[ppOff(fh.Flags)-3], p[ppOff(fh.Flags)-2], p[ppOff(fh.Flags)-1]) & (1<<31 - 1)
+//@   ensures  err == nil ==> seqeq(f.(*PushPromiseFrame).headerFragBuf, p[ppOff(fh.Flags) : len(p)-padLen(fh.Flags&FlagPushPromisePadded != 0, p)]) && samebase(f.(*PushPromiseFrame).headerFragBuf, p)
+//@   allocates
+
+// PRIORITY_UPDATE (RFC 9218 7.1): stream 0, 4 bytes prioritized stream id (non-zero, reserved bit
+// masked), rest is the priority field value.
+//
+//@ func parsePriorityUpdateFrame(fc, fh, countError, payload) (f, err)
+//@   ensures  err != nil <==> (fh.StreamID != 0 || len(payload) < 4 || be32(payload[0], payload[1], payload[2], payload[3]) & 0x7fffffff == 0)
+//@   ensures  err != nil ==> f == nil
+//@   ensures  fh.StreamID != 0 ==> isConnErrReason(err, ErrCodeProtocol)
+//@   ensures  fh.StreamID == 0 && len(payload) < 4 ==> isConnErrReason(err, ErrCodeFrameSize)
+//@   ensures  err == nil ==> hastype(f, *PriorityUpdateFrame) && f.(*PriorityUpdateFrame) != nil && fresh(f.(*PriorityUpdateFrame)) && f.(*PriorityUpdateFrame).FrameHeader == fh
+//@   ensures  err == nil ==> f.(*PriorityUpdateFrame).PrioritizedStreamID == be32(payload[0], payload[1], payload[2], payload[3]) & 0x7fffffff
+//@   ensures  err == nil ==> len(f.(*PriorityUpdateFrame).Priority) == len(payload) - 4 && (forall i int :: 0 <= i && i < len(payload) - 4 ==> f.(*PriorityUpdateFrame).Priority[i] == payload[4+i])
+//@   allocates
+
+// SETTINGS (6.5): stream 0, ACK has no payload, the payload is a sequence of 6-byte entries.
+//
+//@ pure
+func setID(p []byte, i int) SettingID { return SettingID(uint16(p[i*6])<<8 | uint16(p[i*6+1])) }
+
+//@ pure
+func setVal(p []byte, i int) uint32 { return be32(p[i*6+2], p[i*6+3], p[i*6+4], p[i*6+5]) }
+
+//@ func (*SettingsFrame).NumSettings(f) (n)
+//@   requires f != nil
+//@   ensures  n == len(f.p) / 6
+//@
+//@ func (*SettingsFrame).Setting(f, i) (s)
+//@   uses lemmaSix
+//@   requires f != nil && 0 <= i && i < len(f.p) / 6
+//@   ensures  s.ID == setID(f.p, i) && s.Val == setVal(f.p, i)
+
+// Value returns the first entry with the given id.
+//
+//@ func (*SettingsFrame).Value(f, id) (v, ok)
+//@   requires f != nil && f.valid
+//@   ensures  ok ==> (exists k int :: 0 <= k && k < len(f.p)/6 && setID(f.p, k) == id && v == setVal(f.p, k) && (forall j int :: 0 <= j && j < k ==> setID(f.p, j) != id))
+//@   ensures  !ok ==> v == 0 && (forall k int :: 0 <= k && k < len(f.p)/6 ==> setID(f.p, k) != id)
+//@   loop 1 invariant 0 <= i && i <= len(f.p)/6
+//@   loop 1 invariant forall j int :: 0 <= j && j < i ==> setID(f.p, j) != id
+
+// settingsHdrBad: the conditions that do not depend on the entries. Beyond them the parser refuses
+// exactly the frames whose FIRST SETTINGS_INITIAL_WINDOW_SIZE entry exceeds 2^31-1 (later
+// duplicates are left to the consumer of the frame, which applies the entries in order).
+//
+//@ pure
+func settingsHdrBad(fh FrameHeader, p []byte) bool {
+	return (fh.Flags&FlagSettingsAck != 0 && fh.Length > 0) || fh.StreamID != 0 || len(p)%6 != 0
+}
+
+//@ func parseSettingsFrame(fc, fh, countError, p) (f, err)
+//@   requires fh.valid
+//@   ensures  settingsHdrBad(fh, p) ==> err != nil
+//@   ensures  err != nil ==> f == nil
+//@   ensures  fh.Flags&FlagSettingsAck != 0 && fh.Length > 0 ==> isConnErr(err, ErrCodeFrameSize)
+//@   ensures  !(fh.Flags&FlagSettingsAck != 0 && fh.Length > 0) && fh.StreamID != 0 ==> isConnErr(err, ErrCodeProtocol)
+//@   ensures  !settingsHdrBad(fh, p) && err != nil ==> isConnErr(err, ErrCodeFlowControl)
+//@   ensures  !settingsHdrBad(fh, p) ==> (err != nil <==> (exists k int :: 0 <= k && k < len(p)/6 && setID(p, k) == SettingInitialWindowSize && setVal(p, k) > 1<<31-1 && (forall j int :: 0 <= j && j < k ==> setID(p, j) != SettingInitialWindowSize)))
+//@   ensures  err == nil ==> hastype(f, *SettingsFrame) && f.(*SettingsFrame) != nil && fresh(f.(*SettingsFrame)) && f.(*SettingsFrame).FrameHeader == fh
+//@   ensures  err == nil ==> seqeq(f.(*SettingsFrame).p, p) && samebase(f.(*SettingsFrame).p, p) && len(p)%6 == 0
+//@   allocates
+
+// lemmaSix: index arithmetic of 6-byte entries (bit-vector division and multiplication are
+// isolated here): entry i of a sequence of l bytes lies inside the sequence.
+//
+//@ lemma
+//@ requires 0 <= i && 0 <= l && l <= 1<<48 && i < l/6
+//@ ensures i*6+6 <= l && i*6 >= 0
+func lemmaSix(i, l int) {
+}
+
+// ---------------------------------------------------------------------------
+// C07: Framer.ReadFrameHeader: a header is returned without error only if its length is within the
+// configured maximum read size and it respects the HEADERS/CONTINUATION order.
+
+//@ func (*Framer).ReadFrameHeader(fr) (fh, err)
+//@   requires fr != nil
+//@   ensures  err == nil ==> fh.valid && fh.Length <= fr.maxReadSize && fh.StreamID < 1<<31
+//@   ensures  err == nil && !fr.AllowIllegalReads ==> !frameOrderViolation(old(fr.lastHeaderStream), fh.Type, fh.StreamID)
+//@   ensures  err == nil && !fr.AllowIllegalReads ==> fr.lastHeaderStream == nextHeaderStream(old(fr.lastHeaderStream), fh.Type, fh.Flags, fh.StreamID)
+//@   ensures  err != nil || fr.AllowIllegalReads ==> fr.lastHeaderStream == old(fr.lastHeaderStream)
+//@   ensures  fr.maxReadSize == old(fr.maxReadSize)
+//@   modifies fr.errDetail, fr.lastFrameType, fr.lastHeaderStream, fr.headerBuf
+//@   allocates
+
+// The default read buffer provider installed by NewFramer returns exactly size bytes.
+//
+//@ func NewFramer$2(size) (b)
+//@   requires fr != nil
+//@   ensures  len(b) == int(size)
+//@   modifies fr.readBuf
+//@   allocates
+
+// ---------------------------------------------------------------------------
+// C07: header field names on the wire (http2.go): RFC 9113 section 8.2.1: a field name is a
+// non-empty token (RFC 9110 5.6.2) without upper-case letters.
+
+//@ pure
+func wireNameByte(c byte) bool {
+	return c == '!' || c == '#' || c == '$' || c == '%' || c == '&' || c == '\'' || c == '*' || c == '+' ||
+		c == '-' || c == '.' || c == '^' || c == '_' || c == '`' || c == '|' || c == '~' ||
+		('0' <= c && c <= '9') || ('a' <= c && c <= 'z')
+}
+
+//@ func validWireHeaderFieldName(v) (ok)
+//@   ensures ok <==> (len(v) > 0 && forall k int :: 0 <= k && k < len(v) ==> wireNameByte(v[k]))
+//@   loop 1 invariant len(v) > 0 && 0 <= rangepos && rangepos <= len(v)
+//@   loop 1 invariant forall j int :: 0 <= j && j < rangepos ==> wireNameByte(v[j])
+
+// ---------------------------------------------------------------------------
+// C07: pseudo-header fields of a MetaHeadersFrame (RFC 9113 section 8.3).
+
+//@ pure
+func isPseudoName(s string) bool { return len(s) != 0 && s[0] == ':' }
+
+// pseudoKind: 1 for the request pseudo-header fields (8.3.1, plus :protocol of RFC 8441), 2 for
+// the response pseudo-header field (8.3.2), 0 for anything else ("undefined", must be refused).
+//
+//@ pure
+func pseudoKind(s string) int {
+	if s == ":method" || s == ":path" || s == ":scheme" || s == ":authority" || s == ":protocol" {
+		return 1
+	}
+	if s == ":status" {
+		return 2
+	}
+	return 0
+}
+
+// PseudoFields is the longest prefix of Fields whose names start with ':'; RegularFields is the rest.
+//
+//@ func (*MetaHeadersFrame).PseudoFields(mh) (r)
+//@   requires mh != nil
+//@   ensures  samebase(r, mh.Fields) && startoff(r) == startoff(mh.Fields) && 0 <= len(r) && len(r) <= len(mh.Fields)
+//@   ensures  forall k int :: 0 <= k && k < len(r) ==> isPseudoName(mh.Fields[k].Name)
+//@   ensures  len(r) < len(mh.Fields) ==> !isPseudoName(mh.Fields[len(r)].Name)
+//@   loop 1 invariant -1 <= rangeindex && rangeindex < len(mh.Fields)
+//@   loop 1 invariant forall k int :: 0 <= k && k <= rangeindex ==> isPseudoName(mh.Fields[k].Name)
+//@
+//@ func (*MetaHeadersFrame).RegularFields(mh) (r)
+//@   requires mh != nil
+//@   ensures  len(r) > 0 ==> samebase(r, mh.Fields) && endoff(r) == endoff(mh.Fields) && len(r) <= len(mh.Fields) && !isPseudoName(r[0].Name)
+//@   ensures  forall k int :: 0 <= k && k < len(mh.Fields) - len(r) ==> isPseudoName(mh.Fields[k].Name)
+//@   loop 1 invariant -1 <= rangeindex && rangeindex < len(mh.Fields)
+//@   loop 1 invariant forall k int :: 0 <= k && k <= rangeindex ==> isPseudoName(mh.Fields[k].Name)
+
+// checkPseudos accepts exactly the frames whose pseudo-header fields (the first np fields, np = length
+// of the prefix of ':' names of mh.Fields, a ghost value taken from PseudoFields: first clause) are
+// all defined ones, pairwise distinct, and not a mix of request and
+// response fields: err == nil implies the three conditions (the direction C07 needs); a non-nil error is
+// one of the three error kinds. The converse (each error kind implies its condition fails) is
+// existential and was not decided reliably; it is not stated.
+//
+//@ func (*MetaHeadersFrame).checkPseudos(mh) (err)
+//@   requires mh != nil
+//@   ghost np += len($r0) after call PseudoFields
+//@   ensures  0 <= ghost(np) && ghost(np) <= len(mh.Fields) && (forall k int :: 0 <= k && k < ghost(np) ==> isPseudoName(mh.Fields[k].Name)) && (ghost(np) < len(mh.Fields) ==> !isPseudoName(mh.Fields[ghost(np)].Name))
+//@   ensures  err == nil ==> (forall k int :: 0 <= k && k < ghost(np) ==> pseudoKind(mh.Fields[k].Name) != 0)
+//@   ensures  err == nil ==> (forall a int, b int :: 0 <= a && a < b && b < ghost(np) ==> mh.Fields[a].Name != mh.Fields[b].Name)
+//@   ensures  err == nil ==> !((exists k int :: 0 <= k && k < ghost(np) && pseudoKind(mh.Fields[k].Name) == 1) && (exists k int :: 0 <= k && k < ghost(np) && pseudoKind(mh.Fields[k].Name) == 2))
+//@   ensures  err != nil ==> hastype(err, pseudoHeaderError) || hastype(err, duplicatePseudoHeaderError) || err == errMixPseudoHeaderTypes
+//@   loop 1 invariant ghost(np) == len(pf) && samebase(pf, mh.Fields) && startoff(pf) == startoff(mh.Fields) && len(pf) <= len(mh.Fields)
+//@   loop 2 invariant ghost(np) == len(pf)
+//@   loop 1 invariant -1 <= rangeindex && rangeindex < len(pf)
+//@   loop 1 invariant forall k int :: 0 <= k && k <= rangeindex ==> pseudoKind(pf[k].Name) != 0
+//@   loop 1 invariant forall a int, b int :: 0 <= a && a < b && b <= rangeindex ==> pf[a].Name != pf[b].Name
+//@   loop 1 invariant isRequest <==> (exists k int :: 0 <= k && k <= rangeindex && pseudoKind(pf[k].Name) == 1)
+//@   loop 1 invariant isResponse <==> (exists k int :: 0 <= k && k <= rangeindex && pseudoKind(pf[k].Name) == 2)
+//@   loop 2 invariant -1 <= rangeindex && rangeindex < i
+//@   loop 2 invariant forall a int :: 0 <= a && a <= rangeindex ==> pf[a].Name != hf.Name
+
+// ---------------------------------------------------------------------------
+// C07: the emit function of readMetaFrame (called by the HPACK decoder once per decoded field).
+// Its captured variables are the state of the header list being built: invalid (first validity
+// error), sawRegular (a regular field was seen), remainSize (what is left of MaxHeaderListSize),
+// mh.Fields / mh.Truncated.
+
+//@ pure
+func fieldValueOK(c byte) bool { return (c >= 0x20 || c == '\t') && c != 0x7f }
+
+// hfSize: RFC 7541 section 4.1 entry size, as computed by hpack.HeaderField.Size (32-bit).
+//
+//@ pure
+func hfSize(name, value string) uint32 { return uint32(len(name) + len(value) + 32) }
+
+// One step of the header-list state machine:
+//   - a field is appended exactly when no error was recorded before, the field is valid in its
+//     position (value bytes, name syntax for regular fields, no pseudo field after a regular one)
+//     and its size fits in remainSize; then remainSize decreases by exactly that size;
+//   - a valid field that does not fit sets Truncated and zeroes remainSize;
+//   - fields already in the list are never changed.
+//
+//@ func (*Framer).readMetaFrame$1(hf)
+//@   requires fr != nil && mh != nil && hdec != nil
+//@   ensures  sawRegular <==> (old(sawRegular) || !isPseudoName(hf.Name))
+//@   ensures  invalid != nil <==> (old(invalid) != nil || !(forall k int :: 0 <= k && k < len(hf.Value) ==> fieldValueOK(hf.Value[k])) || (isPseudoName(hf.Name) && old(sawRegular)) || (!isPseudoName(hf.Name) && !(len(hf.Name) > 0 && forall k int :: 0 <= k && k < len(hf.Name) ==> wireNameByte(hf.Name[k]))))
+//@   ensures  len(mh.Fields) == old(len(mh.Fields)) + 1 <==> (invalid == nil && hfSize(hf.Name, hf.Value) <= old(remainSize))
+//@   ensures  len(mh.Fields) == old(len(mh.Fields)) + 1 || (len(mh.Fields) == old(len(mh.Fields)) && samebase(mh.Fields, old(mh.Fields)))
+//@   ensures  forall k int :: 0 <= k && k < old(len(mh.Fields)) ==> mh.Fields[k] == old(mh.Fields[k])
+//@   ensures  len(mh.Fields) == old(len(mh.Fields)) + 1 ==> mh.Fields[old(len(mh.Fields))] == hf && remainSize == old(remainSize) - hfSize(hf.Name, hf.Value)
+//@   ensures  invalid == nil && hfSize(hf.Name, hf.Value) > old(remainSize) ==> mh.Truncated && remainSize == 0
+//@   ensures  invalid != nil ==> remainSize == old(remainSize) && mh.Truncated == old(mh.Truncated)
+//@   ensures  len(mh.Fields) == old(len(mh.Fields)) + 1 ==> mh.Truncated == old(mh.Truncated)
+//@   ensures  len(mh.Fields) == old(len(mh.Fields)) ==> !hdec.emitEnabled
+//@   noframe
+//@   allocates
+
+// ---------------------------------------------------------------------------
+// C07: the stream-ID rules, all parsers together: whichever parser is in charge of the frame type
+// refuses a frame whose stream id violates the rule for that type. (The switch below repeats the
+// table frameParsers; the dispatch through that table of function values is not modelled.)
+
+//@ lemma
+//@ requires fh.valid
+//@ ensures streamIDRuleViolated(fh.Type, fh.StreamID) ==> err != nil
+//@ ensures err == nil ==> f != nil
+func lemmaStreamIDRules(fh FrameHeader, countError func(string), payload []byte) (f Frame, err error) {
+	switch fh.Type {
+	case FrameData:
+		return parseDataFrame(nil, fh, countError, payload)
+	case FrameHeaders:
+		return parseHeadersFrame(nil, fh, countError, payload)
+	case FramePriority:
+		return parsePriorityFrame(nil, fh, countError, payload)
+	case FrameRSTStream:
+		return parseRSTStreamFrame(nil, fh, countError, payload)
+	case FrameSettings:
+		return parseSettingsFrame(nil, fh, countError, payload)
+	case FramePushPromise:
+		return parsePushPromise(nil, fh, countError, payload)
+	case FramePing:
+		return parsePingFrame(nil, fh, countError, payload)
+	case FrameGoAway:
+		return parseGoAwayFrame(nil, fh, countError, payload)
+	case FrameWindowUpdate:
+		return parseWindowUpdateFrame(nil, fh, countError, payload)
+	case FrameContinuation:
+		return parseContinuationFrame(nil, fh, countError, payload)
+	case FramePriorityUpdate:
+		return parsePriorityUpdateFrame(nil, fh, countError, payload)
+	}
+	return parseUnknownFrame(nil, fh, countError, payload)
+}
+
+// ReadFrame hands to ReadFrameForHeader only headers that ReadFrameHeader accepted: within the
+// maximum read size and in HEADERS/CONTINUATION order. (ReadFrameForHeader itself, i.e. the read
+// of the payload and the dispatch through typeFrameParser, is abstracted here.)
+//
+//@ func (*Framer).ReadFrame(fr) (f, err)
+//@   havoccalls
+//@   requires fr != nil
+//@   assert at call ReadFrameForHeader: $fh.valid && $fh.Length <= fr.maxReadSize && $fh.StreamID < 1<<31
+//@   assert at call ReadFrameForHeader: !fr.AllowIllegalReads ==> !frameOrderViolation(old(fr.lastHeaderStream), $fh.Type, $fh.StreamID) && fr.lastHeaderStream == nextHeaderStream(old(fr.lastHeaderStream), $fh.Type, $fh.Flags, $fh.StreamID)
+//@   noframe
+
+// readMetaFrame (partial contract: the HPACK decoder, the nested ReadFrame and the logging calls are
+// abstracted; the captured variables are shared with the emit function above):
+//   - a fragment is handed to the HPACK decoder only while no validity error is recorded and the
+//     fragment is not longer than twice the remaining header list budget;
+//   - checkPseudos is consulted only when no validity error is recorded, and a MetaHeadersFrame is
+//     returned without error only after checkPseudos accepted it.
+//
+//@ func (*Framer).readMetaFrame(fr, hf) (f, err)
+//@   havoccalls
+//@   requires fr != nil && hf != nil && fr.ReadMetaHeaders != nil
+//@   assert at call Write: invalid == nil && int64(len($p)) <= 2*int64(remainSize)
+//@   assert at call checkPseudos: invalid == nil && $mh == mh
+//@   ghost accepted += 1 after call checkPseudos when $r0 == nil
+//@   ensures  err == nil ==> ghost(accepted) == 1 && hastype(f, *MetaHeadersFrame) && f.(*MetaHeadersFrame) != nil
+//@   loop 1 invariant ghost(accepted) == 0
+//@   partial nopanic, pre
+//@   noframe
+
+// ===========================================================================
+// C06: the write side. A frame is assembled in f.wbuf (9-byte header with a zero length, then the
+// payload), endWrite back-patches the 24-bit length and hands exactly f.wbuf to the io.Writer.
+
+// hdrOf: the frame header encoded in the first 9 bytes of b, as readFrameHeader decodes it.
+//
+//@ pure
+func hdrOf(b []byte) FrameHeader {
+	return FrameHeader{
+		valid:    true,
+		Length:   be24(b[0], b[1], b[2]),
+		Type:     FrameType(b[3]),
+		Flags:    Flags(b[4]),
+		StreamID: be32(b[5], b[6], b[7], b[8]) & (1<<31 - 1),
+	}
+}
+
+// lemmaReadFrameHeader: readFrameHeader decodes exactly hdrOf of the bytes it read.
+//
+//@ lemma
+//@ requires len(buf) >= frameHeaderLen
+//@ ensures ok
+func lemmaReadFrameHeader(buf []byte, r io.Reader) (ok bool) {
+	fh, err := readFrameHeader(buf, r)
+	if err != nil {
+		return true
+	}
+	return fh == hdrOf(buf)
+}
+
+//@ func (*Framer).startWrite(f, ftype, flags, streamID)
+//@   requires f != nil
+//@   ensures  len(f.wbuf) == 9 && f.wbuf[0] == 0 && f.wbuf[1] == 0 && f.wbuf[2] == 0 && f.wbuf[3] == byte(ftype) && f.wbuf[4] == byte(flags)
+//@   ensures  f.wbuf[5] == byte(streamID>>24) && f.wbuf[6] == byte(streamID>>16) && f.wbuf[7] == byte(streamID>>8) && f.wbuf[8] == byte(streamID)
+//@   ensures  (samebase(f.wbuf, old(f.wbuf)) && startoff(f.wbuf) == old(startoff(f.wbuf))) || fresh(f.wbuf)
+//@   modifies f.wbuf, elems(f.wbuf), spare(f.wbuf)
+//@   allocates
+//@
+//@ func (*Framer).writeByte(f, v)
+//@   requires f != nil
+//@   ensures  len(f.wbuf) == old(len(f.wbuf)) + 1 && f.wbuf[old(len(f.wbuf))] == v
+//@   ensures  forall k int :: 0 <= k && k < old(len(f.wbuf)) ==> f.wbuf[k] == old(f.wbuf[k])
+//@   ensures  (samebase(f.wbuf, old(f.wbuf)) && startoff(f.wbuf) == old(startoff(f.wbuf))) || fresh(f.wbuf)
+//@   ensures  old(len(f.wbuf)) >= 9 ==> f.wbuf[0] == old(f.wbuf[0]) && f.wbuf[1] == old(f.wbuf[1]) && f.wbuf[2] == old(f.wbuf[2]) && f.wbuf[3] == old(f.wbuf[3]) && f.wbuf[4] == old(f.wbuf[4]) && f.wbuf[5] == old(f.wbuf[5]) && f.wbuf[6] == old(f.wbuf[6]) && f.wbuf[7] == old(f.wbuf[7]) && f.wbuf[8] == old(f.wbuf[8])
+//@   ensures  old(len(f.wbuf)) >= 10 ==> f.wbuf[0] == old(f.wbuf[0]) && f.wbuf[1] == old(f.wbuf[1]) && f.wbuf[2] == old(f.wbuf[2]) && f.wbuf[3] == old(f.wbuf[3]) && f.wbuf[4] == old(f.wbuf[4]) && f.wbuf[5] == old(f.wbuf[5]) && f.wbuf[6] == old(f.wbuf[6]) && f.wbuf[7] == old(f.wbuf[7]) && f.wbuf[8] == old(f.wbuf[8]) && f.wbuf[9] == old(f.wbuf[9])
+//@   modifies f.wbuf, spare(f.wbuf)
+//@   allocates
+//@
+//@ func (*Framer).writeBytes(f, v)
+//@   requires f != nil
+//@   ensures  len(f.wbuf) == old(len(f.wbuf)) + len(v)
+//@   ensures  forall k int :: 0 <= k && k < old(len(f.wbuf)) ==> f.wbuf[k] == old(f.wbuf[k])
+//@   ensures  forall k int :: 0 <= k && k < len(v) ==> f.wbuf[old(len(f.wbuf)) + k] == old(v[k])
+//@   ensures  (samebase(f.wbuf, old(f.wbuf)) && startoff(f.wbuf) == old(startoff(f.wbuf))) || fresh(f.wbuf)
+//@   ensures  old(len(f.wbuf)) >= 9 ==> f.wbuf[0] == old(f.wbuf[0]) && f.wbuf[1] == old(f.wbuf[1]) && f.wbuf[2] == old(f.wbuf[2]) && f.wbuf[3] == old(f.wbuf[3]) && f.wbuf[4] == old(f.wbuf[4]) && f.wbuf[5] == old(f.wbuf[5]) && f.wbuf[6] == old(f.wbuf[6]) && f.wbuf[7] == old(f.wbuf[7]) && f.wbuf[8] == old(f.wbuf[8])
+//@   ensures  old(len(f.wbuf)) >= 10 ==> f.wbuf[0] == old(f.wbuf[0]) && f.wbuf[1] == old(f.wbuf[1]) && f.wbuf[2] == old(f.wbuf[2]) && f.wbuf[3] == old(f.wbuf[3]) && f.wbuf[4] == old(f.wbuf[4]) && f.wbuf[5] == old(f.wbuf[5]) && f.wbuf[6] == old(f.wbuf[6]) && f.wbuf[7] == old(f.wbuf[7]) && f.wbuf[8] == old(f.wbuf[8]) && f.wbuf[9] == old(f.wbuf[9])
+//@   modifies f.wbuf, spare(f.wbuf)
+//@   allocates
+//@
+//@ func (*Framer).writeUint16(f, v)
+//@   requires f != nil
+//@   ensures  len(f.wbuf) == old(len(f.wbuf)) + 2 && f.wbuf[old(len(f.wbuf))] == byte(v>>8) && f.wbuf[old(len(f.wbuf))+1] == byte(v)
+//@   ensures  forall k int :: 0 <= k && k < old(len(f.wbuf)) ==> f.wbuf[k] == old(f.wbuf[k])
+//@   ensures  (samebase(f.wbuf, old(f.wbuf)) && startoff(f.wbuf) == old(startoff(f.wbuf))) || fresh(f.wbuf)
+//@   ensures  old(len(f.wbuf)) >= 9 ==> f.wbuf[0] == old(f.wbuf[0]) && f.wbuf[1] == old(f.wbuf[1]) && f.wbuf[2] == old(f.wbuf[2]) && f.wbuf[3] == old(f.wbuf[3]) && f.wbuf[4] == old(f.wbuf[4]) && f.wbuf[5] == old(f.wbuf[5]) && f.wbuf[6] == old(f.wbuf[6]) && f.wbuf[7] == old(f.wbuf[7]) && f.wbuf[8] == old(f.wbuf[8])
+//@   ensures  old(len(f.wbuf)) >= 10 ==> f.wbuf[0] == old(f.wbuf[0]) && f.wbuf[1] == old(f.wbuf[1]) && f.wbuf[2] == old(f.wbuf[2]) && f.wbuf[3] == old(f.wbuf[3]) && f.wbuf[4] == old(f.wbuf[4]) && f.wbuf[5] == old(f.wbuf[5]) && f.wbuf[6] == old(f.wbuf[6]) && f.wbuf[7] == old(f.wbuf[7]) && f.wbuf[8] == old(f.wbuf[8]) && f.wbuf[9] == old(f.wbuf[9])
+//@   modifies f.wbuf, spare(f.wbuf)
+//@   allocates
+//@
+//@ func (*Framer).writeUint32(f, v)
+//@   requires f != nil
+//@   ensures  len(f.wbuf) == old(len(f.wbuf)) + 4 && f.wbuf[old(len(f.wbuf))] == byte(v>>24) && f.wbuf[old(len(f.wbuf))+1] == byte(v>>16) && f.wbuf[old(len(f.wbuf))+2] == byte(v>>8) && f.wbuf[old(len(f.wbuf))+3] == byte(v)
+//@   ensures  forall k int :: 0 <= k && k < old(len(f.wbuf)) ==> f.wbuf[k] == old(f.wbuf[k])
+//@   ensures  (samebase(f.wbuf, old(f.wbuf)) && startoff(f.wbuf) == old(startoff(f.wbuf))) || fresh(f.wbuf)
+//@   ensures  old(len(f.wbuf)) >= 9 ==> f.wbuf[0] == old(f.wbuf[0]) && f.wbuf[1] == old(f.wbuf[1]) && f.wbuf[2] == old(f.wbuf[2]) && f.wbuf[3] == old(f.wbuf[3]) && f.wbuf[4] == old(f.wbuf[4]) && f.wbuf[5] == old(f.wbuf[5]) && f.wbuf[6] == old(f.wbuf[6]) && f.wbuf[7] == old(f.wbuf[7]) && f.wbuf[8] == old(f.wbuf[8])
+//@   ensures  old(len(f.wbuf)) >= 10 ==> f.wbuf[0] == old(f.wbuf[0]) && f.wbuf[1] == old(f.wbuf[1]) && f.wbuf[2] == old(f.wbuf[2]) && f.wbuf[3] == old(f.wbuf[3]) && f.wbuf[4] == old(f.wbuf[4]) && f.wbuf[5] == old(f.wbuf[5]) && f.wbuf[6] == old(f.wbuf[6]) && f.wbuf[7] == old(f.wbuf[7]) && f.wbuf[8] == old(f.wbuf[8]) && f.wbuf[9] == old(f.wbuf[9])
+//@   modifies f.wbuf, spare(f.wbuf)
+//@   allocates
+
+// logWrite (debug logging of written frames, GODEBUG=http2debug=2) is trusted: it feeds a copy of
+// f.wbuf to a private Framer and logs; it does not touch f.wbuf.
+//
+//@ func (*Framer).logWrite(f)
+//@   trusted
+//@   modifies f.debugFramer, f.debugFramerBuf
+//@   allocates
+
+// endWrite: a payload of 2^24 bytes or more is refused before anything is written; otherwise the
+// length len(f.wbuf)-9 is stored big-endian in bytes 0..2, the other bytes are left alone, and
+// the io.Writer receives exactly f.wbuf, once. A short write is an error.
+//
+//@ func (*Framer).endWrite(f) (err)
+//@   requires f != nil && f.w != nil && len(f.wbuf) >= frameHeaderLen
+//@   assert at call Write: samebase($p, f.wbuf) && startoff($p) == startoff(f.wbuf) && len($p) == len(f.wbuf) && len(f.wbuf) - frameHeaderLen < 1<<24
+//@   assert at call Write: be24($p[0], $p[1], $p[2]) == uint32(len(f.wbuf) - frameHeaderLen) && (forall k int :: 3 <= k && k < len(f.wbuf) ==> $p[k] == old(f.wbuf[k]))
+//@   ghost wrote += 1 at call Write
+//@   ensures  len(f.wbuf) - frameHeaderLen >= 1<<24 ==> ghost(wrote) == 0
+//@   ensures  len(f.wbuf) - frameHeaderLen < 1<<24 ==> ghost(wrote) == 1
+//@   ensures  len(f.wbuf) - frameHeaderLen >= 1<<24 ==> err == ErrFrameTooLarge
+//@   ensures  len(f.wbuf) - frameHeaderLen < 1<<24 ==> be24(f.wbuf[0], f.wbuf[1], f.wbuf[2]) == uint32(len(f.wbuf) - frameHeaderLen)
+//@   ensures  len(f.wbuf) == old(len(f.wbuf)) && samebase(f.wbuf, old(f.wbuf)) && startoff(f.wbuf) == old(startoff(f.wbuf))
+//@   ensures  forall k int :: 3 <= k && k < len(f.wbuf) ==> f.wbuf[k] == old(f.wbuf[k])
+//@   ensures  len(f.wbuf) - frameHeaderLen >= 1<<24 ==> (forall k int :: 0 <= k && k < 3 ==> f.wbuf[k] == old(f.wbuf[k]))
+//@   modifies elems(f.wbuf), f.debugFramer, f.debugFramerBuf
+//@   allocates
+
+//@ func validStreamID(streamID) (r)
+//@   pure
+//@ func validStreamIDOrZero(streamID) (r)
+//@   pure
+
+// hdrIs: b starts with the 9-byte header (length n, type t, flags fl, stream id) in wire format.
+//
+//@ pure
+func hdrIs(b []byte, t FrameType, fl Flags, id uint32, n int) bool {
+	return len(b) >= frameHeaderLen && 0 <= n && n < 1<<24 && be24(b[0], b[1], b[2]) == uint32(n) &&
+		b[3] == byte(t) && b[4] == byte(fl) &&
+		b[5] == byte(id>>24) && b[6] == byte(id>>16) && b[7] == byte(id>>8) && b[8] == byte(id)
+}
+
+//@ pure
+func flagIf(c bool, fl Flags) Flags {
+	if c {
+		return fl
+	}
+	return 0
+}
+
+// Byte-level contracts of the writers that copy a caller-supplied byte string: the frame left in
+// f.wbuf (and handed to the io.Writer) when the arguments are accepted and the frame is not too large.
+
+//@ func (*Framer).WriteGoAway(f, maxStreamID, code, debugData) (err)
+//@   requires f != nil && f.w != nil && !samebase(debugData, f.wbuf)
+//@   ensures  len(f.wbuf) == 17 + len(debugData)
+//@   ensures  8 + len(debugData) >= 1<<24 ==> err == ErrFrameTooLarge
+//@   ensures  8 + len(debugData) < 1<<24 ==> hdrIs(f.wbuf, FrameGoAway, 0, 0, 8 + len(debugData))
+//@   ensures  be32(f.wbuf[9], f.wbuf[10], f.wbuf[11], f.wbuf[12]) == maxStreamID & (1<<31-1) && be32(f.wbuf[13], f.wbuf[14], f.wbuf[15], f.wbuf[16]) == uint32(code)
+//@   ensures  forall k int :: 0 <= k && k < len(debugData) ==> f.wbuf[17+k] == debugData[k]
+//@   ensures  forall k int :: 0 <= k && k < len(debugData) ==> debugData[k] == old(debugData[k])
+//@   ensures  (samebase(f.wbuf, old(f.wbuf)) && startoff(f.wbuf) == old(startoff(f.wbuf))) || fresh(f.wbuf)
+//@   modifies f.wbuf, elems(f.wbuf), spare(f.wbuf), f.debugFramer, f.debugFramerBuf
+//@   allocates
+
+//@ func (*Framer).WriteContinuation(f, streamID, endHeaders, frag) (err)
+//@   requires f != nil && f.w != nil && !samebase(frag, f.wbuf)
+//@   ensures  err == errStreamID && !validStreamID(streamID) && !f.AllowIllegalWrites || len(f.wbuf) == 9 + len(frag)
+//@   ensures  !validStreamID(streamID) && !f.AllowIllegalWrites ==> err == errStreamID
+//@   ensures  validStreamID(streamID) || f.AllowIllegalWrites ==> len(f.wbuf) == 9 + len(frag) && (len(frag) >= 1<<24 ==> err == ErrFrameTooLarge)
+//@   ensures  (validStreamID(streamID) || f.AllowIllegalWrites) && len(frag) < 1<<24 ==> hdrIs(f.wbuf, FrameContinuation, flagIf(endHeaders, FlagContinuationEndHeaders), streamID, len(frag))
+//@   ensures  validStreamID(streamID) || f.AllowIllegalWrites ==> (forall k int :: 0 <= k && k < len(frag) ==> f.wbuf[9+k] == frag[k])
+//@   ensures  forall k int :: 0 <= k && k < len(frag) ==> frag[k] == old(frag[k])
+//@   ensures  (samebase(f.wbuf, old(f.wbuf)) && startoff(f.wbuf) == old(startoff(f.wbuf))) || fresh(f.wbuf)
+//@   modifies f.wbuf, elems(f.wbuf), spare(f.wbuf), f.debugFramer, f.debugFramerBuf
+//@   allocates
+
+//@ func (*Framer).WriteRawFrame(f, t, flags, streamID, payload) (err)
+//@   requires f != nil && f.w != nil && !samebase(payload, f.wbuf)
+//@   ensures  len(f.wbuf) == 9 + len(payload) && (len(payload) >= 1<<24 ==> err == ErrFrameTooLarge)
+//@   ensures  len(payload) < 1<<24 ==> hdrIs(f.wbuf, t, flags, streamID, len(payload))
+//@   ensures  forall k int :: 0 <= k && k < len(payload) ==> f.wbuf[9+k] == payload[k]
+//@   ensures  forall k int :: 0 <= k && k < len(payload) ==> payload[k] == old(payload[k])
+//@   ensures  (samebase(f.wbuf, old(f.wbuf)) && startoff(f.wbuf) == old(startoff(f.wbuf))) || fresh(f.wbuf)
+//@   modifies f.wbuf, elems(f.wbuf), spare(f.wbuf), f.debugFramer, f.debugFramerBuf
+//@   allocates
+
+//@ pure
+func exclBit(e bool) uint32 {
+	if e {
+		return 1 << 31
+	}
+	return 0
+}
+
+//@ func (*Framer).WritePriority(f, streamID, p) (err)
+//@   requires f != nil && f.w != nil
+//@   ensures  !validStreamID(streamID) && !f.AllowIllegalWrites ==> err == errStreamID
+//@   ensures  (validStreamID(streamID) || f.AllowIllegalWrites) && !validStreamIDOrZero(p.StreamDep) ==> err == errDepStreamID
+//@   ensures  (validStreamID(streamID) || f.AllowIllegalWrites) && validStreamIDOrZero(p.StreamDep) ==> len(f.wbuf) == 14 && hdrIs(f.wbuf, FramePriority, 0, streamID, 5)
+//@   ensures  (validStreamID(streamID) || f.AllowIllegalWrites) && validStreamIDOrZero(p.StreamDep) ==> be32(f.wbuf[9], f.wbuf[10], f.wbuf[11], f.wbuf[12]) == p.StreamDep | exclBit(p.Exclusive) && f.wbuf[13] == p.Weight
+//@   ensures  (samebase(f.wbuf, old(f.wbuf)) && startoff(f.wbuf) == old(startoff(f.wbuf))) || fresh(f.wbuf)
+//@   modifies f.wbuf, elems(f.wbuf), spare(f.wbuf), f.debugFramer, f.debugFramerBuf
+//@   allocates
+
+// The round-trip lemmas, one per Write method. Each runs the real method (loop-free methods by their
+// bodies, over the contracts of startWrite / write* / endWrite; methods with loops by their own
+// contracts), checks which arguments are refused, and for an accepted frame decodes the bytes left
+// in f.wbuf - the bytes endWrite handed to the io.Writer - with hdrOf (= readFrameHeader, see
+// lemmaReadFrameHeader) and the parser ReadFrame would use: the header length equals the payload
+// length, type, flags and stream id are the ones written, and the parsed fields equal the
+// arguments, padding removed. Slice arguments do not alias f.wbuf (the buffer is private to the
+// Framer). AllowIllegalWrites is off (with it, frames the reader must refuse can be written).
+
+// PING: header, flags and length read back; that the 8 payload bytes read back equal `data` is NOT
+// proved: the engine does not know that the spilled copy of the array parameter `data` is disjoint
+// from the backing array of f.wbuf (obligation "pf.Data == data" fails with a spurious model).
+//
+//@ lemma
+//@ usebody (*Framer).WritePing
+//@ requires f != nil && f.w != nil
+//@ ensures ok
+func lemmaRoundTripPing(f *Framer, ack bool, data [8]byte, ce func(string)) (ok bool) {
+	if f.WritePing(ack, data) != nil {
+		return true
+	}
+	fh := hdrOf(f.wbuf)
+	fr, err := parsePingFrame(nil, fh, ce, f.wbuf[frameHeaderLen:])
+	if err != nil {
+		return false
+	}
+	pf := fr.(*PingFrame)
+	return int(fh.Length) == len(f.wbuf)-frameHeaderLen && fh.Type == FramePing && fh.StreamID == 0 &&
+		fh.Flags == flagIf(ack, FlagPingAck) && pf.FrameHeader == fh && pf.IsAck() == ack
+}
+
+//@ lemma
+//@ usebody (*Framer).WriteRSTStream
+//@ requires f != nil && f.w != nil && !f.AllowIllegalWrites
+//@ ensures ok
+func lemmaRoundTripRSTStream(f *Framer, streamID uint32, code ErrCode, ce func(string)) (ok bool) {
+	werr := f.WriteRSTStream(streamID, code)
+	if streamID == 0 || streamID >= 1<<31 {
+		return werr == errStreamID
+	}
+	if werr != nil {
+		return true
+	}
+	fh := hdrOf(f.wbuf)
+	fr, err := parseRSTStreamFrame(nil, fh, ce, f.wbuf[frameHeaderLen:])
+	if err != nil {
+		return false
+	}
+	rf := fr.(*RSTStreamFrame)
+	return int(fh.Length) == len(f.wbuf)-frameHeaderLen && fh.Type == FrameRSTStream && fh.Flags == 0 && fh.StreamID == streamID &&
+		rf.FrameHeader == fh && rf.ErrCode == code
+}
+
+//@ lemma
+//@ usebody (*Framer).WriteWindowUpdate
+//@ requires f != nil && f.w != nil && !f.AllowIllegalWrites && streamID < 1<<31
+//@ ensures ok
+func lemmaRoundTripWindowUpdate(f *Framer, streamID, incr uint32, ce func(string)) (ok bool) {
+	werr := f.WriteWindowUpdate(streamID, incr)
+	if incr < 1 || incr > 1<<31-1 {
+		return werr != nil
+	}
+	if werr != nil {
+		return true
+	}
+	fh := hdrOf(f.wbuf)
+	fr, err := parseWindowUpdateFrame(nil, fh, ce, f.wbuf[frameHeaderLen:])
+	if err != nil {
+		return false
+	}
+	wf := fr.(*WindowUpdateFrame)
+	return int(fh.Length) == len(f.wbuf)-frameHeaderLen && fh.Type == FrameWindowUpdate && fh.Flags == 0 && fh.StreamID == streamID &&
+		wf.FrameHeader == fh && wf.Increment == incr
+}
+
+//@ lemma
+//@ requires f != nil && f.w != nil && !f.AllowIllegalWrites
+//@ ensures ok
+func lemmaRoundTripPriority(f *Framer, streamID uint32, p PriorityParam, ce func(string)) (ok bool) {
+	werr := f.WritePriority(streamID, p)
+	if streamID == 0 || streamID >= 1<<31 {
+		return werr == errStreamID
+	}
+	if p.StreamDep >= 1<<31 {
+		return werr == errDepStreamID
+	}
+	if werr != nil {
+		return true
+	}
+	fh := hdrOf(f.wbuf)
+	fr, err := parsePriorityFrame(nil, fh, ce, f.wbuf[frameHeaderLen:])
+	if err != nil {
+		return false
+	}
+	pf := fr.(*PriorityFrame)
+	return int(fh.Length) == len(f.wbuf)-frameHeaderLen && fh.Type == FramePriority && fh.Flags == 0 && fh.StreamID == streamID &&
+		pf.FrameHeader == fh && pf.StreamDep == p.StreamDep && pf.Exclusive == p.Exclusive && pf.Weight == p.Weight
+}
+
+//@ lemma
+//@ requires f != nil && f.w != nil && !samebase(debugData, f.wbuf)
+//@ requires 0 <= k && k < len(debugData)
+//@ ensures ok
+func lemmaRoundTripGoAway(f *Framer, maxStreamID uint32, code ErrCode, debugData []byte, ce func(string), k int) (ok bool) {
+	want := debugData[k]
+	if f.WriteGoAway(maxStreamID, code, debugData) != nil {
+		return true
+	}
+	fh := hdrOf(f.wbuf)
+	fr, err := parseGoAwayFrame(nil, fh, ce, f.wbuf[frameHeaderLen:])
+	if err != nil {
+		return false
+	}
+	gf := fr.(*GoAwayFrame)
+	return int(fh.Length) == len(f.wbuf)-frameHeaderLen && fh.Type == FrameGoAway && fh.Flags == 0 && fh.StreamID == 0 &&
+		gf.FrameHeader == fh && gf.LastStreamID == maxStreamID&(1<<31-1) && gf.ErrCode == code &&
+		len(gf.debugData) == len(debugData) && gf.debugData[k] == want
+}
+
+//@ lemma
+//@ requires f != nil && f.w != nil && len(debugData) == 0 && !samebase(debugData, f.wbuf)
+//@ ensures ok
+func lemmaRoundTripGoAwayEmpty(f *Framer, maxStreamID uint32, code ErrCode, debugData []byte, ce func(string)) (ok bool) {
+	if f.WriteGoAway(maxStreamID, code, debugData) != nil {
+		return true
+	}
+	fh := hdrOf(f.wbuf)
+	fr, err := parseGoAwayFrame(nil, fh, ce, f.wbuf[frameHeaderLen:])
+	if err != nil {
+		return false
+	}
+	gf := fr.(*GoAwayFrame)
+	return fh.Length == 8 && len(f.wbuf) == 17 && fh.Type == FrameGoAway && fh.StreamID == 0 &&
+		gf.LastStreamID == maxStreamID&(1<<31-1) && gf.ErrCode == code && len(gf.debugData) == 0
+}
+
+//@ lemma
+//@ requires f != nil && f.w != nil && !f.AllowIllegalWrites && !samebase(frag, f.wbuf)
+//@ requires len(frag) == 0 || (0 <= k && k < len(frag))
+//@ ensures ok
+func lemmaRoundTripContinuation(f *Framer, streamID uint32, endHeaders bool, frag []byte, ce func(string), k int) (ok bool) {
+	var want byte
+	if len(frag) > 0 {
+		want = frag[k]
+	}
+	werr := f.WriteContinuation(streamID, endHeaders, frag)
+	if streamID == 0 || streamID >= 1<<31 {
+		return werr == errStreamID
+	}
+	if werr != nil {
+		return true
+	}
+	fh := hdrOf(f.wbuf)
+	fr, err := parseContinuationFrame(nil, fh, ce, f.wbuf[frameHeaderLen:])
+	if err != nil {
+		return false
+	}
+	cf := fr.(*ContinuationFrame)
+	return int(fh.Length) == len(f.wbuf)-frameHeaderLen && fh.Type == FrameContinuation && fh.StreamID == streamID &&
+		fh.Flags == flagIf(endHeaders, FlagContinuationEndHeaders) && cf.FrameHeader == fh && cf.HeadersEnded() == endHeaders &&
+		len(cf.headerFragBuf) == len(frag) && (len(frag) == 0 || cf.headerFragBuf[k] == want)
+}
+
+// Raw frames: the header always reads back as written (31-bit stream ids); a type without a parser
+// of its own reads back as an UnknownFrame with the same payload.
+//
+//@ lemma
+//@ requires f != nil && f.w != nil && !samebase(payload, f.wbuf) && streamID < 1<<31
+//@ requires len(payload) == 0 || (0 <= k && k < len(payload))
+//@ ensures ok
+func lemmaRoundTripRawFrame(f *Framer, t FrameType, flags Flags, streamID uint32, payload []byte, ce func(string), k int) (ok bool) {
+	var want byte
+	if len(payload) > 0 {
+		want = payload[k]
+	}
+	if f.WriteRawFrame(t, flags, streamID, payload) != nil {
+		return true
+	}
+	fh := hdrOf(f.wbuf)
+	fr, err := parseUnknownFrame(nil, fh, ce, f.wbuf[frameHeaderLen:])
+	if err != nil {
+		return false
+	}
+	uf := fr.(*UnknownFrame)
+	return int(fh.Length) == len(f.wbuf)-frameHeaderLen && fh.Type == t && fh.Flags == flags && fh.StreamID == streamID &&
+		uf.FrameHeader == fh && len(uf.p) == len(payload) && (len(payload) == 0 || uf.p[k] == want)
+}
+
+//@ lemma
+//@ usebody (*Framer).WriteSettingsAck
+//@ requires f != nil && f.w != nil
+//@ ensures ok
+func lemmaRoundTripSettingsAck(f *Framer, ce func(string)) (ok bool) {
+	if f.WriteSettingsAck() != nil {
+		return true
+	}
+	fh := hdrOf(f.wbuf)
+	fr, err := parseSettingsFrame(nil, fh, ce, f.wbuf[frameHeaderLen:])
+	if err != nil {
+		return false
+	}
+	sf := fr.(*SettingsFrame)
+	return fh.Length == 0 && len(f.wbuf) == frameHeaderLen && fh.Type == FrameSettings && fh.StreamID == 0 &&
+		fh.Flags == FlagSettingsAck && sf.IsAck() && len(sf.p) == 0
+}
+
+// DATA: refused arguments (in this order): invalid stream id, more than 255 padding bytes, non-zero
+// padding bytes; otherwise the frame is header, [Pad Length], data, padding.
+//
+//@ func (*Framer).startWriteDataPadded(f, streamID, endStream, data, pad) (err)
+//@   requires f != nil && (len(data) == 0 || !samebase(data, f.wbuf)) && (len(pad) == 0 || !samebase(pad, f.wbuf))
+//@   ensures  !validStreamID(streamID) && !f.AllowIllegalWrites ==> err == errStreamID
+//@   ensures  (validStreamID(streamID) || f.AllowIllegalWrites) && len(pad) > 255 ==> err == errPadLength
+//@   ensures  (validStreamID(streamID) || f.AllowIllegalWrites) && len(pad) <= 255 ==> (err == errPadBytes <==> (!f.AllowIllegalWrites && exists k int :: 0 <= k && k < len(pad) && pad[k] != 0))
+//@   ensures  err == nil <==> ((validStreamID(streamID) || f.AllowIllegalWrites) && len(pad) <= 255 && err != errPadBytes)
+//@   ensures  err == nil ==> len(f.wbuf) == 9 + padOff(pad != nil) + len(data) + len(pad) && f.wbuf[0] == 0 && f.wbuf[1] == 0 && f.wbuf[2] == 0
+//@   ensures  err == nil ==> f.wbuf[3] == byte(FrameData) && f.wbuf[4] == byte(flagIf(endStream, FlagDataEndStream) | flagIf(pad != nil, FlagDataPadded))
+//@   ensures  err == nil ==> f.wbuf[5] == byte(streamID>>24) && f.wbuf[6] == byte(streamID>>16) && f.wbuf[7] == byte(streamID>>8) && f.wbuf[8] == byte(streamID)
+//@   ensures  err == nil && pad != nil ==> f.wbuf[9] == byte(len(pad))
+//@   ensures  err == nil ==> (forall k int :: 0 <= k && k < len(data) ==> f.wbuf[9+padOff(pad != nil)+k] == data[k])
+//@   ensures  forall k int :: 0 <= k && k < len(data) ==> data[k] == old(data[k])
+//@   ensures  (samebase(f.wbuf, old(f.wbuf)) && startoff(f.wbuf) == old(startoff(f.wbuf))) || fresh(f.wbuf)
+//@   loop 1 invariant -1 <= rangeindex && rangeindex < len(pad)
+//@   loop 1 invariant forall j int :: 0 <= j && j <= rangeindex ==> pad[j] == 0
+//@   modifies f.wbuf, elems(f.wbuf), spare(f.wbuf)
+//@   allocates
+
+//@ func (*Framer).WriteDataPadded(f, streamID, endStream, data, pad) (err)
+//@   requires f != nil && f.w != nil && (len(data) == 0 || !samebase(data, f.wbuf)) && (len(pad) == 0 || !samebase(pad, f.wbuf))
+//@   ensures  !validStreamID(streamID) && !f.AllowIllegalWrites ==> err == errStreamID
+//@   ensures  (validStreamID(streamID) || f.AllowIllegalWrites) && len(pad) > 255 ==> err == errPadLength
+//@   ensures  (validStreamID(streamID) || f.AllowIllegalWrites) && len(pad) <= 255 && !f.AllowIllegalWrites && (exists k int :: 0 <= k && k < len(pad) && pad[k] != 0) ==> err == errPadBytes
+//@   ensures  (validStreamID(streamID) || f.AllowIllegalWrites) && len(pad) <= 255 && (f.AllowIllegalWrites || forall k int :: 0 <= k && k < len(pad) ==> pad[k] == 0) ==> len(f.wbuf) == 9 + padOff(pad != nil) + len(data) + len(pad) && (padOff(pad != nil) + len(data) + len(pad) >= 1<<24 ==> err == ErrFrameTooLarge)
+//@   ensures  err == nil ==> len(f.wbuf) == 9 + padOff(pad != nil) + len(data) + len(pad) && len(pad) <= 255 && hdrIs(f.wbuf, FrameData, flagIf(endStream, FlagDataEndStream) | flagIf(pad != nil, FlagDataPadded), streamID, padOff(pad != nil) + len(data) + len(pad))
+//@   ensures  err == nil ==> (validStreamID(streamID) || f.AllowIllegalWrites) && (pad != nil ==> f.wbuf[9] == byte(len(pad)))
+//@   ensures  err == nil ==> (forall k int :: 0 <= k && k < len(data) ==> f.wbuf[9+padOff(pad != nil)+k] == data[k])
+//@   ensures  forall k int :: 0 <= k && k < len(data) ==> data[k] == old(data[k])
+//@   ensures  (samebase(f.wbuf, old(f.wbuf)) && startoff(f.wbuf) == old(startoff(f.wbuf))) || fresh(f.wbuf)
+//@   modifies f.wbuf, elems(f.wbuf), spare(f.wbuf), f.debugFramer, f.debugFramerBuf
+//@   allocates
+
+//@ lemma
+//@ requires f != nil && f.w != nil && !f.AllowIllegalWrites && !samebase(data, f.wbuf) && !samebase(pad, f.wbuf)
+//@ requires len(data) == 0 || (0 <= k && k < len(data))
+//@ ensures ok
+func lemmaRoundTripData(f *Framer, streamID uint32, endStream bool, data, pad []byte, ce func(string), k int) (ok bool) {
+	var want byte
+	if len(data) > 0 {
+		want = data[k]
+	}
+	werr := f.WriteDataPadded(streamID, endStream, data, pad)
+	if streamID == 0 || streamID >= 1<<31 {
+		return werr == errStreamID
+	}
+	if len(pad) > 255 {
+		return werr == errPadLength
+	}
+	if werr != nil {
+		return true
+	}
+	fh := hdrOf(f.wbuf)
+	fr, err := parseDataFrame(nil, fh, ce, f.wbuf[frameHeaderLen:])
+	if err != nil {
+		return false
+	}
+	df := fr.(*DataFrame)
+	return int(fh.Length) == len(f.wbuf)-frameHeaderLen && fh.Type == FrameData && fh.StreamID == streamID &&
+		df.FrameHeader == fh && df.StreamEnded() == endStream && fh.Flags.Has(FlagDataPadded) == (pad != nil) &&
+		len(df.data) == len(data) && (len(data) == 0 || df.data[k] == want)
+}
+
+// WriteData is WriteDataPadded without padding.
+//
+//@ lemma
+//@ usebody (*Framer).WriteData
+//@ requires f != nil && f.w != nil && !f.AllowIllegalWrites && !samebase(data, f.wbuf) && validStreamID(streamID)
+//@ ensures ok
+func lemmaWriteData(f *Framer, streamID uint32, endStream bool, data []byte) (ok bool) {
+	if f.WriteData(streamID, endStream, data) != nil {
+		return true
+	}
+	return len(f.wbuf) == frameHeaderLen+len(data) && hdrIs(f.wbuf, FrameData, flagIf(endStream, FlagDataEndStream), streamID, len(data))
+}
+
+// HEADERS: header, [Pad Length], [stream dependency (E bit + 31 bits), weight], fragment, padding.
+//
+//@ pure
+func prioIsZero(p PriorityParam) bool { return p == PriorityParam{} }
+
+//@ pure
+func headersFlags(p HeadersFrameParam) Flags {
+	return flagIf(p.PadLength != 0, FlagHeadersPadded) | flagIf(p.EndStream, FlagHeadersEndStream) |
+		flagIf(p.EndHeaders, FlagHeadersEndHeaders) | flagIf(!prioIsZero(p.Priority), FlagHeadersPriority)
+}
+
+//@ func (*Framer).WriteHeaders(f, p) (err)
+//@   requires f != nil && f.w != nil && (len(p.BlockFragment) == 0 || !samebase(p.BlockFragment, f.wbuf))
+//@   requires len(padZeros) == 255 && !samebase(padZeros, f.wbuf)
+//@   cases p.PadLength != 0
+//@   cases prioIsZero(p.Priority)
+//@   ensures  !validStreamID(p.StreamID) && !f.AllowIllegalWrites ==> err == errStreamID
+//@   ensures  validStreamID(p.StreamID) && !f.AllowIllegalWrites && !prioIsZero(p.Priority) && !validStreamIDOrZero(p.Priority.StreamDep) ==> err == errDepStreamID
+//@   ensures  err == nil ==> len(f.wbuf) == 9 + hdrOff(headersFlags(p)) + len(p.BlockFragment) + int(p.PadLength)
+//@   ensures  err == nil ==> len(f.wbuf) - 9 < 1<<24 && be24(f.wbuf[0], f.wbuf[1], f.wbuf[2]) == uint32(len(f.wbuf) - 9) && f.wbuf[3] == byte(FrameHeaders) && f.wbuf[4] == byte(headersFlags(p))
+//@   ensures  err == nil ==> f.wbuf[5] == byte(p.StreamID>>24) && f.wbuf[6] == byte(p.StreamID>>16) && f.wbuf[7] == byte(p.StreamID>>8) && f.wbuf[8] == byte(p.StreamID)
+//@   ensures  err == nil && p.PadLength != 0 ==> f.wbuf[9] == p.PadLength
+//@   ensures  err == nil && !prioIsZero(p.Priority) ==> be32(f.wbuf[9+hdrOff(headersFlags(p))-5], f.wbuf[9+hdrOff(headersFlags(p))-4], f.wbuf[9+hdrOff(headersFlags(p))-3], f.wbuf[9+hdrOff(headersFlags(p))-2]) == p.Priority.StreamDep | exclBit(p.Priority.Exclusive)
+//@   ensures  err == nil && !prioIsZero(p.Priority) ==> f.wbuf[9+hdrOff(headersFlags(p))-1] == p.Priority.Weight
+//@   ensures  err == nil ==> (forall k int :: 0 <= k && k < len(p.BlockFragment) ==> f.wbuf[9+hdrOff(headersFlags(p))+k] == p.BlockFragment[k])
+//@   ensures  err == nil && !f.AllowIllegalWrites ==> validStreamID(p.StreamID) && (prioIsZero(p.Priority) || validStreamIDOrZero(p.Priority.StreamDep))
+//@   ensures  forall k int :: 0 <= k && k < len(p.BlockFragment) ==> p.BlockFragment[k] == old(p.BlockFragment[k])
+//@   ensures  (samebase(f.wbuf, old(f.wbuf)) && startoff(f.wbuf) == old(startoff(f.wbuf))) || fresh(f.wbuf)
+//@   modifies f.wbuf, elems(f.wbuf), spare(f.wbuf), f.debugFramer, f.debugFramerBuf
+//@   allocates
+
+//@ lemma
+//@ requires f != nil && f.w != nil && !f.AllowIllegalWrites && (len(p.BlockFragment) == 0 || !samebase(p.BlockFragment, f.wbuf))
+//@ requires len(padZeros) == 255 && !samebase(padZeros, f.wbuf)
+//@ requires len(p.BlockFragment) == 0 || (0 <= k && k < len(p.BlockFragment))
+//@ cases p.PadLength != 0
+//@ cases prioIsZero(p.Priority)
+//@ ensures ok
+func lemmaRoundTripHeaders(f *Framer, p HeadersFrameParam, ce func(string), k int) (ok bool) {
+	var want byte
+	if len(p.BlockFragment) > 0 {
+		want = p.BlockFragment[k]
+	}
+	werr := f.WriteHeaders(p)
+	if p.StreamID == 0 || p.StreamID >= 1<<31 {
+		return werr == errStreamID
+	}
+	if werr != nil {
+		return true
+	}
+	fh := hdrOf(f.wbuf)
+	fr, err := parseHeadersFrame(nil, fh, ce, f.wbuf[frameHeaderLen:])
+	if err != nil {
+		return false
+	}
+	hf := fr.(*HeadersFrame)
+	if int(fh.Length) != len(f.wbuf)-frameHeaderLen || fh.Type != FrameHeaders || fh.StreamID != p.StreamID || hf.FrameHeader != fh {
+		return false
+	}
+	if hf.StreamEnded() != p.EndStream || hf.HeadersEnded() != p.EndHeaders || hf.HasPriority() != !p.Priority.IsZero() ||
+		fh.Flags.Has(FlagHeadersPadded) != (p.PadLength != 0) {
+		return false
+	}
+	if hf.HasPriority() && (hf.Priority.StreamDep != p.Priority.StreamDep || hf.Priority.Exclusive != p.Priority.Exclusive || hf.Priority.Weight != p.Priority.Weight) {
+		return false
+	}
+	return len(hf.headerFragBuf) == len(p.BlockFragment) && (len(p.BlockFragment) == 0 || hf.headerFragBuf[k] == want)
+}
+
+// PUSH_PROMISE: header, [Pad Length], promised stream id, fragment, padding.
+//
+//@ func (*Framer).WritePushPromise(f, p) (err)
+//@   requires f != nil && f.w != nil && (len(p.BlockFragment) == 0 || !samebase(p.BlockFragment, f.wbuf))
+//@   requires len(padZeros) == 255 && !samebase(padZeros, f.wbuf)
+//@   cases p.PadLength != 0
+//@   ensures  !validStreamID(p.StreamID) && !f.AllowIllegalWrites ==> err == errStreamID
+//@   ensures  !validStreamID(p.PromiseID) && !f.AllowIllegalWrites ==> err == errStreamID
+//@   ensures  err == nil && !f.AllowIllegalWrites ==> validStreamID(p.StreamID) && validStreamID(p.PromiseID)
+//@   ensures  err == nil ==> len(f.wbuf) == 9 + 4 + padOff(p.PadLength != 0) + len(p.BlockFragment) + int(p.PadLength)
+//@   ensures  err == nil ==> hdrIs(f.wbuf, FramePushPromise, flagIf(p.PadLength != 0, FlagPushPromisePadded) | flagIf(p.EndHeaders, FlagPushPromiseEndHeaders), p.StreamID, 4 + padOff(p.PadLength != 0) + len(p.BlockFragment) + int(p.PadLength))
+//@   ensures  err == nil && p.PadLength != 0 ==> f.wbuf[9] == p.PadLength
+//@   ensures  err == nil ==> be32(f.wbuf[9+padOff(p.PadLength != 0)], f.wbuf[10+padOff(p.PadLength != 0)], f.wbuf[11+padOff(p.PadLength != 0)], f.wbuf[12+padOff(p.PadLength != 0)]) == p.PromiseID
+//@   ensures  err == nil ==> (forall k int :: 0 <= k && k < len(p.BlockFragment) ==> f.wbuf[13+padOff(p.PadLength != 0)+k] == p.BlockFragment[k])
+//@   ensures  forall k int :: 0 <= k && k < len(p.BlockFragment) ==> p.BlockFragment[k] == old(p.BlockFragment[k])
+//@   ensures  (samebase(f.wbuf, old(f.wbuf)) && startoff(f.wbuf) == old(startoff(f.wbuf))) || fresh(f.wbuf)
+//@   modifies f.wbuf, elems(f.wbuf), spare(f.wbuf), f.debugFramer, f.debugFramerBuf
+//@   allocates
+
+//@ lemma
+//@ requires f != nil && f.w != nil && !f.AllowIllegalWrites && (len(p.BlockFragment) == 0 || !samebase(p.BlockFragment, f.wbuf))
+//@ requires len(padZeros) == 255 && !samebase(padZeros, f.wbuf)
+//@ requires len(p.BlockFragment) == 0 || (0 <= k && k < len(p.BlockFragment))
+//@ cases p.PadLength != 0
+//@ ensures ok
+func lemmaRoundTripPushPromise(f *Framer, p PushPromiseParam, ce func(string), k int) (ok bool) {
+	var want byte
+	if len(p.BlockFragment) > 0 {
+		want = p.BlockFragment[k]
+	}
+	werr := f.WritePushPromise(p)
+	if p.StreamID == 0 || p.StreamID >= 1<<31 || p.PromiseID == 0 || p.PromiseID >= 1<<31 {
+		return werr == errStreamID
+	}
+	if werr != nil {
+		return true
+	}
+	fh := hdrOf(f.wbuf)
+	fr, err := parsePushPromise(nil, fh, ce, f.wbuf[frameHeaderLen:])
+	if err != nil {
+		return false
+	}
+	pf := fr.(*PushPromiseFrame)
+	return int(fh.Length) == len(f.wbuf)-frameHeaderLen && fh.Type == FramePushPromise && fh.StreamID == p.StreamID && pf.FrameHeader == fh &&
+		pf.HeadersEnded() == p.EndHeaders && fh.Flags.Has(FlagPushPromisePadded) == (p.PadLength != 0) && pf.PromiseID == p.PromiseID &&
+		len(pf.headerFragBuf) == len(p.BlockFragment) && (len(p.BlockFragment) == 0 || pf.headerFragBuf[k] == want)
+}
+
+// SETTINGS: header (stream 0, no flags) and one 6-byte entry per argument, in order.
+// NOT DISCHARGED: the loop obligations inv.1.preserve.3, loopframe.1 and post.3 of this contract time
+// out (120 s); the unit and the two lemmas that use the contract are not registered.
+//
+//@ func (*Framer).WriteSettings(f, settings) (err)
+//@   requires f != nil && f.w != nil
+//@   ensures  len(f.wbuf) == 9 + 6*len(settings) && (6*len(settings) >= 1<<24 ==> err == ErrFrameTooLarge)
+//@   ensures  6*len(settings) < 1<<24 ==> hdrIs(f.wbuf, FrameSettings, 0, 0, 6*len(settings))
+//@   ensures  forall k int :: 0 <= k && k < len(settings) ==> f.wbuf[9+6*k] == byte(settings[k].ID>>8) && f.wbuf[9+6*k+1] == byte(settings[k].ID) && f.wbuf[9+6*k+2] == byte(settings[k].Val>>24) && f.wbuf[9+6*k+3] == byte(settings[k].Val>>16) && f.wbuf[9+6*k+4] == byte(settings[k].Val>>8) && f.wbuf[9+6*k+5] == byte(settings[k].Val)
+//@   ensures  (samebase(f.wbuf, old(f.wbuf)) && startoff(f.wbuf) == old(startoff(f.wbuf))) || fresh(f.wbuf)
+//@   loop 1 invariant -1 <= rangeindex && rangeindex < len(settings) && len(f.wbuf) == 9 + 6*(rangeindex+1) && f != nil
+//@   loop 1 invariant f.wbuf[0] == 0 && f.wbuf[1] == 0 && f.wbuf[2] == 0 && f.wbuf[3] == byte(FrameSettings) && f.wbuf[4] == 0 && f.wbuf[5] == 0 && f.wbuf[6] == 0 && f.wbuf[7] == 0 && f.wbuf[8] == 0
+//@   loop 1 invariant forall k int :: 0 <= k && k <= rangeindex ==> f.wbuf[9+6*k] == byte(settings[k].ID>>8) && f.wbuf[9+6*k+1] == byte(settings[k].ID) && f.wbuf[9+6*k+2] == byte(settings[k].Val>>24) && f.wbuf[9+6*k+3] == byte(settings[k].Val>>16) && f.wbuf[9+6*k+4] == byte(settings[k].Val>>8) && f.wbuf[9+6*k+5] == byte(settings[k].Val)
+//@   loop 1 invariant (samebase(f.wbuf, old(f.wbuf)) && startoff(f.wbuf) == old(startoff(f.wbuf))) || fresh(f.wbuf)
+//@   loop 1 modifies f.wbuf, elems(f.wbuf), spare(f.wbuf)
+//@   modifies f.wbuf, elems(f.wbuf), spare(f.wbuf), f.debugFramer, f.debugFramerBuf
+//@   allocates
+
+// Round trip of SETTINGS for the frames the reader accepts: every entry reads back (id and value) at
+// its position. The reader refuses a frame whose first SETTINGS_INITIAL_WINDOW_SIZE entry exceeds
+// 2^31-1 although WriteSettings accepts it; see lemmaRoundTripSettingsAny.
+//
+//@ lemma
+//@ requires f != nil && f.w != nil && 0 <= k && k < len(settings)
+//@ ensures ok
+func lemmaRoundTripSettings(f *Framer, settings []Setting, ce func(string), k int) (ok bool) {
+	want := settings[k]
+	if f.WriteSettings(settings...) != nil {
+		return true
+	}
+	fh := hdrOf(f.wbuf)
+	fr, err := parseSettingsFrame(nil, fh, ce, f.wbuf[frameHeaderLen:])
+	if err != nil {
+		return isConnErr(err, ErrCodeFlowControl)
+	}
+	sf := fr.(*SettingsFrame)
+	return int(fh.Length) == len(f.wbuf)-frameHeaderLen && fh.Type == FrameSettings && fh.StreamID == 0 && fh.Flags == 0 && sf.FrameHeader == fh &&
+		len(sf.p) == 6*len(settings) && setID(sf.p, k) == want.ID && setVal(sf.p, k) == want.Val
+}
+
+// The statement of C06 taken literally ("every frame produced by a Write method with arguments the
+// method accepts is read back as the same frame"): FAILS for WriteSettings, which accepts
+// Setting{SettingInitialWindowSize, 1<<31} while the reader answers FLOW_CONTROL_ERROR. Kept out
+// of the registered units; reported as a finding.
+//
+//@ lemma
+//@ requires f != nil && f.w != nil && 0 <= k && k < len(settings)
+//@ ensures ok
+func lemmaRoundTripSettingsAny(f *Framer, settings []Setting, ce func(string), k int) (ok bool) {
+	if f.WriteSettings(settings...) != nil {
+		return true
+	}
+	_, err := parseSettingsFrame(nil, hdrOf(f.wbuf), ce, f.wbuf[frameHeaderLen:])
+	return err == nil
+}
